@@ -1,5 +1,6 @@
 import Model
 import Model.Scenarios
+import Proofs.Scenarios
 /-!
 C16 — scenarios are scheduled independently.
 
@@ -39,6 +40,53 @@ theorem override_only_own (m : Multi) (j : Nat) (ovs : List Override) (i : Nat) 
 /-- every scenario starts from the empty ledger and zero counters -/
 theorem fresh_state (e : Env) : (initState e).led.get = (({} : Ledger).get) ∧ (initState e).cnt.get = (({} : Counters).get) :=
   ⟨rfl, rfl⟩
+
+/-- the result reported for scenario `i` is the schedule of ITS OWN projection — nothing else enters -/
+theorem scenario_result_is_own_projection (m : Multi) (i : Nat) :
+    (runAll m)[i]? = (m.scenarios[i]?).map (fun ovs => runScenario (elaborate (projection m.base ovs)).env) := by
+  unfold runAll; rw [List.getElem?_map]
+
+/-- two scenarios with the same overrides get the same schedule, wherever they stand in the declaration
+    order and whatever was scheduled between them (no ledger, counter or horizon survives a scenario) -/
+theorem same_overrides_same_result (m : Multi) (i j : Nat) (h : m.scenarios[i]? = m.scenarios[j]?) :
+    (runAll m)[i]? = (runAll m)[j]? := by
+  rw [scenario_result_is_own_projection, scenario_result_is_own_projection, h]
+
+/-- declaring the scenarios in another order permutes the results and changes none of them -/
+theorem scenario_order_irrelevant (m : Multi) (l : List (List Override)) (h : l.Perm m.scenarios) :
+    (runAll { m with scenarios := l }).Perm (runAll m) := by
+  unfold runAll; exact h.map _
+
+/-- removing scenario `j` leaves the results of all the others as they were: those declared before it keep
+    their place, those declared after it move up by one -/
+theorem remove_scenario_frame (m : Multi) (j i : Nat) :
+    (runAll { m with scenarios := m.scenarios.eraseIdx j })[i]? = (runAll m)[if i < j then i else i + 1]? := by
+  unfold runAll
+  simp only [List.getElem?_map, List.getElem?_eraseIdx]
+  split <;> rfl
+
+/-- inserting a scenario anywhere in the declaration order leaves the others' results as they were -/
+theorem insert_scenario_frame (m : Multi) (j : Nat) (extra : List Override) (i : Nat) (hi : i < j) :
+    (runAll { m with scenarios := m.scenarios.insertIdx j extra })[i]? = (runAll m)[i]? := by
+  unfold runAll
+  simp only [List.getElem?_map]
+  rw [List.getElem?_insertIdx_of_lt hi]
+
+/-- a scenario has exactly the tasks of the base project -/
+theorem projection_task_count (b : RawProj) (ovs : List Override) : (projection b ovs).tasks.length = b.tasks.length :=
+  foldl_applyOne_length ovs b.tasks
+
+/-- a task that no override of the scenario names enters the scenario with every attribute of the base project -/
+theorem untouched_task_same (b : RawProj) (ovs : List Override) (i : Nat) (h : ∀ o ∈ ovs, o.task ≠ i) :
+    (projection b ovs).tasks[i]? = b.tasks[i]? :=
+  foldl_applyOne_other ovs b.tasks i h
+
+/-- everything of the project that is not a task (resolution, window, resources, calendars, limits) is shared unchanged -/
+theorem projection_shares_rest (b : RawProj) (ovs : List Override) :
+    { projection b ovs with tasks := b.tasks } = b := rfl
+
+example : (projection { G := 3600, start := 0, stop := 604800, tasks := [{ effort := some 2 }, { effort := some 3 }] }
+    [{ task := 1, effort := some 4 }]).tasks.map (·.effort) = [some 2, some 4] := by decide +kernel
 
 example : (runAll { base := { G := 3600, start := 0, stop := 604800 }, scenarios := [[], [{ task := 0, effort := some 4 }]] }).length = 2 := rfl
 
